@@ -394,7 +394,7 @@ func runC05(c *Ctx) {
 		}
 		errFalse := false
 		for _, st := range urlFn.Body.List {
-			if is, ok := st.(*ast.IfStmt); ok && types.ExprString(is.Cond) == "err != nil" {
+			if is, ok := st.(*ast.IfStmt); ok && errVarOfCond(is.Cond) != "" {
 				if r, ok := is.Body.List[0].(*ast.ReturnStmt); ok && types.ExprString(r.Results[0]) == "false" {
 					errFalse = true
 				}
